@@ -355,7 +355,7 @@ class Handler:
             ev("send_cancel")
         elif n0.endswith("Notify::notify_one") or n0.endswith("Notify::notify_waiters"):
             rl = root_local(b, args[0])
-            ev("notify", (b.locals[rl]["name"] if rl is not None else None) or name_of_operand(b, args[0]) or "?")
+            ev("notify", (b.locals[rl]["name"] if rl is not None else None) or name_of_operand(b, args[0]) or "?", extra=n0.rsplit("::", 1)[-1])
         elif n0.endswith("Notify::notified"):
             rl = root_local(b, args[0])
             ev("notified", (b.locals[rl]["name"] if rl is not None else None) or name_of_operand(b, args[0]) or "?")
